@@ -97,7 +97,16 @@ func lossFilter(p program, dir string, deadAfter *bool, clientFinDelivered *bool
 
 func scenario(arg string) *vx.Scenario {
 	p := parseProgram(arg)
-	return &vx.Scenario{Name: "shutdown:" + arg, Cfg: vrt.Config{MaxSteps: 400000, MaxTime: 10 * time.Minute, Settle: 20 * time.Second}, Run: func() {
+	return &vx.Scenario{Name: "shutdown:" + arg, Cfg: vrt.Config{MaxSteps: 400000, MaxTime: 10 * time.Minute, Settle: 20 * time.Second}, Judge: func(r *vrt.Result) []string {
+		ps := vx.DefaultJudge(r)
+		// the environment stops both muxers at 140 virtual seconds at the latest: still running at
+		// the 10-minute cap means a Stop (or something it waits for) never returned while a
+		// ticker kept the clock moving, i.e. a deadlock that is not quiescent
+		if r.Horizon != "" {
+			ps = append(ps, "never returned: "+r.Horizon)
+		}
+		return ps
+	}, Run: func() {
 		m := tuberig.NewMuxers(0)
 		flag := false
 		clientFinDelivered := false
@@ -177,7 +186,7 @@ func scenario(arg string) *vx.Scenario {
 				defer wg.Done()
 				defer func() { running-- }()
 				for _, o := range ops {
-					if t == nil && o != 's' && o != 'o' && o != 'O' {
+					if t == nil && o != 's' && o != 'o' && o != 'O' && o != 'k' && o != 'p' {
 						continue
 					}
 					t0 := vrt.Now()
@@ -209,6 +218,15 @@ func scenario(arg string) *vx.Scenario {
 							mux.CreateReliableTube(9)
 						} else {
 							mux.CreateUnreliableTube(9)
+						}
+					case 'p':
+						vrt.Sleep(2 * time.Second)
+					case 'k':
+						// the transport connection under this side's muxer dies (its writes fail from now on)
+						if side == "client" {
+							m.CConn.Close()
+						} else {
+							m.SConn.Close()
 						}
 					case 's':
 						noteClose(side)
@@ -304,6 +322,17 @@ func programs(thorough bool) (all []program, core []program) {
 			program{Client: "Wc", Client2: "s", Server: "r", Loss: l}, program{Client: "cx", Server: "cx", Loss: l}, program{Client: "c", Client2: "c", Server: "c", Loss: l},
 			program{Client: "wcx", Server: "rcx", Loss: l}, program{Client: "c", Server: "rcx", Loss: l}, program{Client: "s", Server: "x", Server2: "o", Loss: l}, program{Client: "s", Server: "x", Server2: "O", Loss: l})
 	}
+	// the transport connection under one muxer dies (sender error path) with data in flight or being
+	// retransmitted
+	for _, l := range []string{"none", "dead", "after"} {
+		for _, b := range [][4]string{{"wpk", "", "r", ""}, {"Wpk", "", "r", ""}, {"wpkc", "", "r", ""}, {"wk", "", "rc", ""}, {"k", "", "w", ""}, {"wpk", "s", "r", ""}, {"r", "", "wpk", ""}, {"wpkpps", "", "", ""}} {
+			p := program{Client: b[0], Client2: b[1], Server: b[2], Server2: b[3], Loss: l}
+			all = append(all, p)
+			if b[0] == "wpk" || b[0] == "wpkc" {
+				core = append(core, p)
+			}
+		}
+	}
 	for _, l := range []string{"none", "after", "dead"} {
 		for _, b := range [][2]string{{"c", "c"}, {"wc", "rc"}, {"cx", "s"}, {"s", "c"}, {"c", "x"}} {
 			all = append(all, program{Client: b[0], Server: b[1], Loss: l, Unrel: true})
@@ -313,7 +342,7 @@ func programs(thorough bool) (all []program, core []program) {
 }
 
 func classify(w string) string {
-	for _, k := range []string{"deadlock", "panic", "leaked", "WaitForClose returned", "Muxer.Stop took", "Write succeeded after", "Write succeeds on", "Read keeps", "Read after stop", "cannot create", "accept failed"} {
+	for _, k := range []string{"deadlock", "never returned", "panic", "leaked", "WaitForClose returned", "Muxer.Stop took", "Write succeeded after", "Write succeeds on", "Read keeps", "Read after stop", "cannot create", "accept failed"} {
 		if strings.Contains(w, k) {
 			return strings.ReplaceAll(k, " ", "-")
 		}
@@ -402,7 +431,7 @@ func main() {
 	} else {
 		phases = []phase{{"all programs, one deviation (any kind)", all, vx.Bounds{1, 1, 1, 1, 0}, 1, 0}, {"core programs, two deviations (any kinds) among the first 600 choice points", core, vx.Bounds{2, 2, 2, 1, 0}, 2, 600}}
 	}
-	r.SetRule("two real tube muxers (rewritten at check time for the deterministic scheduler + virtual clock) over an in-memory link; one tube opened by the client; per side a main thread with a sequence of <=3 operations from {Write 1 byte, Write 40000 bytes, Read, Close, WaitForClose, Stop, open a further reliable / unreliable tube} and an optional second thread issuing a concurrent Close or Stop; loss patterns {none, first FIN lost, reply to the first FIN lost, everything from the client lost once the server has sent its FIN (lost last ACK), everything lost after 400 ms, dead network from the start}; the environment stops both muxers once all program threads returned, at the latest at virtual time 140 s. Every program is executed under every schedule within the phase's deviation bounds (iterative bounding; executions run to completion). Oracles: no deadlock, no panic in any thread (e.g. send on closed channel), every Close returns, Stop returns within 10 virtual seconds; WaitForClose returns within 120 virtual seconds of closure having become inevitable (both ends asked for it on a link that recovers, or the local muxer was told to stop), no thread alive 20 virtual seconds after both muxers stopped, after local close Write fails and Read ends with end-of-stream. states = distinct schedules; transitions = choice points met.")
+	r.SetRule("two real tube muxers (rewritten at check time for the deterministic scheduler + virtual clock) over an in-memory link; one tube opened by the client; per side a main thread with a sequence of <=3 operations from {Write 1 byte, Write 40000 bytes, Read, Close, WaitForClose, Stop, open a further reliable / unreliable tube, pause 2 s, kill the muxer's transport connection (its writes fail from then on)} (<=6 for the kill programs) and an optional second thread issuing a concurrent Close or Stop; loss patterns {none, first FIN lost, reply to the first FIN lost, everything from the client lost once the server has sent its FIN (lost last ACK), everything lost after 400 ms, dead network from the start}; the environment stops both muxers once all program threads returned, at the latest at virtual time 140 s. Every program is executed under every schedule within the phase's deviation bounds (iterative bounding; executions run to completion). Oracles: no deadlock, nothing still running at 10 virtual minutes, no panic in any thread (e.g. send on closed channel), every Close returns, Stop returns within 10 virtual seconds; WaitForClose returns within 120 virtual seconds of closure having become inevitable (both ends asked for it on a link that recovers, or the local muxer was told to stop), no thread alive 20 virtual seconds after both muxers stopped, after local close Write fails and Read ends with end-of-stream. states = distinct schedules; transitions = choice points met.")
 	var execs, points int64
 	traces := 0
 	for _, ph := range phases {
